@@ -112,6 +112,47 @@ CHECKS = {
              "(markers facing universal sub-schemas); both are open known findings classified by input shape.",
         technique="Coq proof (double nested induction over schemas) + refutation witnesses by vm_compute + vm_compute correspondence + direct oracle",
         design="6 C15"),
+    "C19": dict(
+        text="Theorems (Coq): mapping_targets_exported / mapping_keeps_names (reflection over the mapping and export "
+             "tables REGENERATED from the running code on every run; finite domain = the table); for all modules "
+             "(any number of statements/lines): rewrite_import_binds_same (each rewritten import binds the same local "
+             "names, mapped names from their v2 (module, name), unmapped from the original, star/relative untouched), "
+             "rewrite_splice_correct (line_disjoint source: every other statement preserved unchanged and in order), "
+             "rewrite_none_iff, rewrite_twice_stable; rewrite_splice_refuted witnesses known finding F21 (shared "
+             "physical line). Tie: model fed the ast view of generated modules, predicted statement list vs "
+             "ast.parse(output); oracle on /repo: output parses, non-import statements identical, bindings equal.",
+        note=COMMON_NOTE + "Python's grammar / ast positions trusted. F21 is an open known finding (classified by "
+             "input shape: a rewritten from-import shares a physical line with other code); F27 (form-feed line "
+             "splitting) was repaired by a fix: commit.",
+        technique="Coq proof (reflection on regenerated tables + splice/list induction) + vm_compute correspondence + direct oracle",
+        design="6 C19"),
+    "C13": dict(
+        text="Theorems (Coq, all operands, all values): or_is_union / any_call_is_union / flatten_same_meaning (a | b and "
+             "schema.any accept exactly the union; flattening keeps the meaning), add_spec + add_characterisation "
+             "(d1 + d2 is the dict schema with d1's keys overridden and extended by d2's, Python's position rule "
+             "included; relaxed iff either is), make_required_spec (accepts exactly the values d accepts in which the "
+             "listed keys are present; undeclared key -> DeclarationError), alias_spec, getitem_spec / iter_spec / "
+             "contains_spec, each with wf preservation so C02's theorem applies to the result. Tie: the real "
+             "combinators' resulting schema / exception vs the model (exact, key order included); oracle on /repo: "
+             "verdicts of the combination vs verdicts of the parts / of an independently declared merged dict.",
+        note=COMMON_NOTE + "Observation (not treated as a violation, DESIGN section 7): iterating a relaxed dict schema "
+             "yields the `...` marker, which d[...] refuses (iter_all_subscriptable_refuted).",
+        technique="Coq proof (conformance equivalences by induction on entry lists) + vm_compute correspondence + direct oracle",
+        design="6 C13"),
+    "C16": dict(
+        text="Theorems (Coq, all schema trees, every subset of positions wrapped, all values): erase_validate / "
+             "erase_validateR (a forwarding custom wrapper yields the same errors with the same paths and actual "
+             "values, and the same exception where validation raises), erase_conforms, erase_subst (substitution "
+             "succeeds or fails identically), erase_wf; erase_gen (same tape -> same value) in props/C16.v once "
+             "GenerateSpec is in the closure. The printed form is not modelled here (C06). The real assurance that "
+             "the REAL containers forward path/indent/kwargs in every position is the correspondence: a forwarding "
+             "CustomSchema defined in the harness, random trees with random positions wrapped (built from the built "
+             "tree), compared wrapped vs unwrapped on validate (errors, paths, messages, both validators), generate "
+             "(same tape), represent (text) and substitute (outcome, erased result).",
+        note=COMMON_NOTE + "Partial in the brief's sense: keyword forwarding by CPython is runtime behaviour the model "
+             "cannot exhibit; the embedding comparison observes it.",
+        technique="Coq proof (erasure commutes with each visitor, nested induction) + vm_compute correspondence + wrapped-vs-unwrapped differential oracle",
+        design="6 C16"),
 }
 
 
